@@ -2154,7 +2154,7 @@ type TableValuedFunction struct {
 
 // Format formats the node.
 func (node *TableValuedFunction) Format(buf *TrackedBuffer) {
-	buf.Myprintf("%v(%v)", node.Name, node.Args)
+	buf.Myprintf("%v(%v) as %v", node.Name, node.Args, node.As)
 }
 
 func (node *TableValuedFunction) walkSubtree(visit Visit) error {
